@@ -802,6 +802,34 @@ func TestC03(t *testing.T) {
 		offer(c, def, in, fmt.Sprintf("claimed=%d/supplied=%d", cl, su))
 	})
 
+	// 3e. the same claims after history: the parser has just received, complete, a 4 MiB message
+	//     of the same command (what a receiver learned from earlier traffic must not make it
+	//     believe a later header)
+	rec.Suite("claimed-after-large-message", len(claimed)*3, func(c *ev.Case) {
+		cl, su := claimed[c.I%len(claimed)], []int{0, 1000, 65537}[c.I/len(claimed)]
+		if su >= cl-20 {
+			return
+		}
+		warm := make([]byte, 20+8+(4<<20))
+		copy(warm, refcodec.EncodeHeader(refcodec.Header{Version: 1, Length: uint32(len(warm)), Flags: 0x80, Code: 257, HopByHop: 1, EndToEnd: 1}))
+		warm[20+2], warm[20+3] = 0x01, 0x07 // Session-Id
+		warm[20+4] = 0x40
+		put24(warm, 20+5, len(warm)-20)
+		if m, err := diam.ReadMessage(bytes.NewReader(warm), def.Parser); err != nil || m == nil {
+			c.Fail(ev.Sig{"op": "setup"}, nil, nil, "the complete 4 MiB message was refused: %v", err)
+			return
+		}
+		warm = nil
+		runtime.GC()
+		in := make([]byte, 20+su)
+		copy(in, refcodec.EncodeHeader(refcodec.Header{Version: 1, Length: uint32(cl), Flags: 0x80, Code: 257, HopByHop: 1, EndToEnd: 1}))
+		if su >= 8 {
+			in[20+2], in[20+3] = 0x01, 0x07
+			put24(in, 20+5, cl-20)
+		}
+		offer(c, def, in, fmt.Sprintf("after-large-message/claimed=%d/supplied=%d", cl, su))
+	})
+
 	// 4. random byte strings with plausible headers
 	rec.Suite("random", raceDiv(rec, rec.N(20000, 2000000), 8), func(c *ev.Case) {
 		r := c.R
